@@ -90,12 +90,27 @@ pub fn source_map_of(m: &Value) -> SourceMap {
       .map(|a| a.iter().map(string_of).collect())
       .unwrap_or_default()
   };
-  let mut map = SourceMap::new(
-    string_of(&m["m"]),
-    strings(&m["sources"]),
-    strings(&m["contents"]),
-    strings(&m["names"]),
-  );
+  // a value is a value, whichever way it was put together: `new` with all
+  // tables, or `new` with the mappings only and the setters for the rest
+  let mut map = if m["via"].as_str() == Some("setters") {
+    let mut map = SourceMap::new(
+      string_of(&m["m"]),
+      Vec::<String>::new(),
+      Vec::<String>::new(),
+      Vec::<String>::new(),
+    );
+    map.set_sources(strings(&m["sources"]));
+    map.set_sources_content(strings(&m["contents"]));
+    map.set_names(strings(&m["names"]));
+    map
+  } else {
+    SourceMap::new(
+      string_of(&m["m"]),
+      strings(&m["sources"]),
+      strings(&m["contents"]),
+      strings(&m["names"]),
+    )
+  };
   if let Some(root) = opt(&m["root"]) {
     map.set_source_root(Some(string_of(root)));
   }
